@@ -14,9 +14,9 @@ import (
 )
 
 func init() {
-	Register(&Rule{Name: "T-ROUND", Floor: 200, Run: runTRound,
+	Register(&Rule{Name: "T-ROUND", Floor: 120, Run: runTRound,
 		Doc: "round increments the magnitude exactly per the IEEE direction table over (mode, sign, rounding digit, sticky, parity), reports accuracy as the sign of (stored-exact), and turns an all-nines carry into an exponent step or an infinity"})
-	Register(&Rule{Name: "T-SETEXP", Floor: 20, Run: runTSetExp,
+	Register(&Rule{Name: "T-SETEXP", Floor: 15, Run: runTSetExp,
 		Doc: "setExpAndRound maps exponent underflow to a zero and overflow to an infinity of the result's sign with the documented accuracy, and otherwise stores the exponent and rounds with the caller's sticky bit"})
 }
 
